@@ -19,7 +19,37 @@ fn dig<T: ark_serialize::CanonicalSerialize>(x: &T) -> String {
 /// One complete deterministic execution; every random choice derives from `seed`.
 /// A configuration whose polynomials have well over a thousand coefficients: size thresholds in parallel
 /// code paths (blocked conversions, chunked sums) are far above what the small scenarios reach.
+static HUGE: std::sync::atomic::AtomicBool = std::sync::atomic::AtomicBool::new(false);
+fn huge() -> bool {
+    HUGE.load(std::sync::atomic::Ordering::Relaxed)
+}
+
+/// `<scheme>/huge`: 2^13 .. 2^14 coefficients (14 variables; PST13: one variable of degree 256..700 or two
+/// of degree 24..40) - vector lengths of 4096 and more inside the provers, tables of several hundred powers
+/// per variable in the PST13 parameters.
+fn huge_cfg<S: Scheme>(rng: &mut ChaCha20Rng) -> Cfg {
+    match S::KIND {
+        Kind::Univariate => {
+            let d = match rng.next_u32() % 3 {
+                0 => [8191usize, 8192, 8193][(rng.next_u32() % 3) as usize],
+                1 => 8191,
+                _ => range(rng, 8192, 16384),
+            };
+            let enforced = if S::BOUNDS && rng.next_u32() % 2 == 0 { Some(vec![d]) } else { None };
+            Cfg { max_degree: d, num_vars: None, supported_degree: d, supported_hiding: 1, enforced }
+        }
+        Kind::Multivariate => {
+            let (nv, d) = if rng.next_u32() % 3 != 0 { (1, range(rng, 256, 700)) } else { (2, range(rng, 24, 40)) };
+            Cfg { max_degree: d, num_vars: Some(nv), supported_degree: d, supported_hiding: d.min(300), enforced: None }
+        }
+        Kind::Multilinear => Cfg { max_degree: 1, num_vars: Some(14), supported_degree: 1, supported_hiding: 1, enforced: None },
+    }
+}
+
 fn large_cfg<S: Scheme>(rng: &mut ChaCha20Rng, thorough: bool) -> Cfg {
+    if huge() {
+        return huge_cfg::<S>(rng);
+    }
     match S::KIND {
         Kind::Univariate => {
             let d = match rng.next_u32() % 4 {
@@ -40,7 +70,8 @@ fn large_tx<S: Scheme>(rng: &mut ChaCha20Rng, thorough: bool) -> Result<Tx<S>, T
     let top = S::max_poly_degree(&cfg);
     let mut specs = Vec::new();
     for (i, label) in ["big", "other"].iter().enumerate() {
-        let bound = if S::BOUNDS && S::NAME == "ipa" && rng.next_u32() % 2 == 0 { Some(top) } else { cfg.enforced.as_ref().and_then(|e| if rng.next_u32() % 2 == 0 { Some(e[0]) } else { None }) };
+        // IPA rounds the supported degree up to 2^k - 1 (`top`): its only valid bound for a polynomial of that degree is `top`
+        let bound = if S::BOUNDS && S::NAME == "ipa" { if rng.next_u32() % 2 == 0 { Some(top) } else { None } } else { cfg.enforced.as_ref().and_then(|e| if rng.next_u32() % 2 == 0 { Some(e[0]) } else { None }) };
         let hiding = if S::HIDING && rng.next_u32() % 2 == 0 { Some(1) } else { None };
         let deg = if i == 0 { top } else { range(rng, top / 2, top) };
         specs.push(Spec { label: label.to_string(), shape: if i == 0 { Shape::Full } else { Shape::Random }, deg, bound, hiding });
@@ -109,6 +140,85 @@ fn in_pool<T: Send>(threads: usize, f: impl FnOnce() -> T + Send) -> T {
 }
 
 fn case<S: Scheme>(ctx: &mut Ctx, idx: u64, rng: &mut ChaCha20Rng, large: bool) {
+    let thorough = ctx.is_thorough();
+    case_with(ctx, idx, rng, S::NAME, large, move |seed| workload::<S>(seed, thorough, large));
+}
+
+/// Schemes used through their own API (no `PolynomialCommitment` impl): multilinear PST and streaming KZG.
+fn mlpst_workload(seed: [u8; 32], large: bool) -> BTreeMap<String, String> {
+    use ark_ff::UniformRand;
+    use ark_poly::DenseMultilinearExtension;
+    use ark_poly_commit::multilinear_pc::MultilinearPC;
+    type E = ark_bls12_381::Bls12_381;
+    type Fr = ark_bls12_381::Fr;
+    let mut out = BTreeMap::new();
+    let mut rng = ChaCha20Rng::from_seed(seed);
+    let setup_nv = if large { range(&mut rng, 10, 12) } else { range(&mut rng, 1, 8) };
+    let nv = if rng.next_u32() % 2 == 0 { setup_nv } else { range(&mut rng, 1, setup_nv) };
+    out.insert("size/variables".into(), format!("{}/{}", nv, setup_nv));
+    let pp = MultilinearPC::<E>::setup(setup_nv, &mut rng);
+    out.insert("setup/universal-params".into(), dig(&pp));
+    let (ck, vk) = MultilinearPC::<E>::trim(&pp, nv);
+    out.insert("trim/committer-key".into(), dig(&ck));
+    out.insert("trim/verifier-key".into(), dig(&vk));
+    let poly = DenseMultilinearExtension::<Fr>::from_evaluations_vec(nv, (0..1usize << nv).map(|_| if rng.next_u32() % 5 == 0 { Fr::from(0u64) } else { Fr::rand(&mut rng) }).collect());
+    let comm = MultilinearPC::<E>::commit(&ck, &poly);
+    out.insert("commit/non-hiding-commitment[0]".into(), dig(&comm));
+    let z: Vec<Fr> = (0..nv).map(|_| Fr::rand(&mut rng)).collect();
+    let v = poly.evaluate(&z);
+    let proof = MultilinearPC::<E>::open(&ck, &poly, &z);
+    out.insert("open/proof".into(), dig(&proof));
+    out.insert("check/decision".into(), format!("{}", MultilinearPC::<E>::check(&vk, &comm, &z, v, &proof)));
+    out.insert("check/decision-on-false-claim".into(), format!("{}", MultilinearPC::<E>::check(&vk, &comm, &z, v + Fr::from(1u64), &proof)));
+    out
+}
+
+fn streaming_workload(seed: [u8; 32], large: bool) -> BTreeMap<String, String> {
+    use ark_ff::UniformRand;
+    use ark_poly_commit::streaming_kzg::{CommitterKey, CommitterKeyStream, VerifierKey};
+    use ark_std::iterable::Reverse;
+    type E = ark_bls12_381::Bls12_381;
+    type Fr = ark_bls12_381::Fr;
+    let mut out = BTreeMap::new();
+    let mut rng = ChaCha20Rng::from_seed(seed);
+    let d = if large { range(&mut rng, 1023, 2100) } else { range(&mut rng, 1, 200) };
+    let max_pts = range(&mut rng, 1, 6);
+    let ck = CommitterKey::<E>::new(d, max_pts, &mut rng);
+    let (g1, g2) = ck.verif_powers();
+    out.insert("setup/g1-powers".into(), dig(&g1.to_vec()));
+    out.insert("setup/g2-powers".into(), dig(&g2.to_vec()));
+    let vk = VerifierKey::from(&ck);
+    let npolys = range(&mut rng, 1, 3);
+    let polys: Vec<Vec<Fr>> = (0..npolys).map(|i| (0..if i == 0 { d + 1 } else { range(&mut rng, 1, d + 1) }).map(|_| Fr::rand(&mut rng)).collect()).collect();
+    let buf = [1usize, 3, 64, 1 << 20][(rng.next_u32() % 4) as usize];
+    let sck = CommitterKeyStream::from(&ck);
+    let comms = ck.batch_commit(&polys);
+    for (i, c) in comms.iter().enumerate() {
+        out.insert(format!("commit/time[{}]", i), dig(&c.verif_point()));
+        out.insert(format!("commit/space[{}]", i), dig(&sck.commit(&Reverse(polys[i].as_slice())).verif_point()));
+    }
+    let alpha = Fr::rand(&mut rng);
+    let (ev, pf) = ck.open(&polys[0], &alpha);
+    out.insert("open/time".into(), format!("{}{}", dig(&ev), dig(&pf.0)));
+    let (ev2, pf2) = sck.open(&Reverse(polys[0].as_slice()), &alpha, buf);
+    out.insert("open/space".into(), format!("{}{}", dig(&ev2), dig(&pf2.0)));
+    out.insert("verify/decision".into(), format!("{}", vk.verify(&comms[0], &alpha, &ev, &pf).is_ok()));
+    let npts = range(&mut rng, 1, ck.max_eval_points().max(1).min(max_pts));
+    let pts: Vec<Fr> = (0..npts).map(|_| Fr::rand(&mut rng)).collect();
+    let eta = Fr::rand(&mut rng);
+    let refs: Vec<&Vec<Fr>> = polys.iter().collect();
+    let bp = ck.batch_open_multi_points(&refs, &pts, &eta);
+    out.insert("batch_open_multi_points/proof".into(), dig(&bp.0));
+    if polys[0].len() > npts {
+        let (rem, sp) = sck.open_multi_points(&Reverse(polys[0].as_slice()), &pts, buf);
+        out.insert("open_multi_points/space".into(), format!("{}{}", dig(&rem), dig(&sp.0)));
+    }
+    let evals: Vec<Vec<Fr>> = polys.iter().map(|p| pts.iter().map(|x| p.iter().rev().fold(Fr::from(0u64), |a, c| a * x + c)).collect()).collect();
+    out.insert("verify_multi_points/decision".into(), format!("{}", vk.verify_multi_points(&comms, &pts, &evals, &bp, &eta).is_ok()));
+    out
+}
+
+fn case_with(ctx: &mut Ctx, idx: u64, rng: &mut ChaCha20Rng, name: &str, large: bool, work: impl Fn([u8; 32]) -> BTreeMap<String, String> + Sync) {
     let mut seed = [0u8; 32];
     rng.fill_bytes(&mut seed);
     let thorough = ctx.is_thorough();
@@ -118,8 +228,8 @@ fn case<S: Scheme>(ctx: &mut Ctx, idx: u64, rng: &mut ChaCha20Rng, large: bool) 
     {
         // pool sizes: 1 (reference), 2, 3, 16 and further sizes drawn per case from 4..=24 - a block-splitting
         // slip shows only for particular (thread count, length) pairs, so the sizes must vary across cases
-        let mut pools: Vec<usize> = vec![1, 2, 3, 16];
-        let extra = if large { 3 } else if thorough { 6 } else { 3 };
+        let mut pools: Vec<usize> = if huge() { vec![1, 3, 16] } else { vec![1, 2, 3, 16] };
+        let extra = if huge() { 1 } else if large { 3 } else if thorough { 6 } else { 3 };
         let mut prng = ChaCha20Rng::from_seed(seed);
         prng.set_stream(99);
         while pools.len() < 4 + extra {
@@ -129,11 +239,11 @@ fn case<S: Scheme>(ctx: &mut Ctx, idx: u64, rng: &mut ChaCha20Rng, large: bool) 
             }
         }
         for &t in &pools {
-            runs.push((format!("pool-{}", t), in_pool(t, || workload::<S>(seed, thorough, large))));
+            runs.push((format!("pool-{}", t), in_pool(t, || work(seed))));
         }
-        let reps = if large { 1 } else if thorough { 8 } else { 3 };
+        let reps = if huge() { 0 } else if large { 1 } else if thorough { 8 } else { 3 };
         for r in 0..reps {
-            runs.push((format!("pool-16-repeat-{}", r), in_pool(16, || workload::<S>(seed, thorough, large))));
+            runs.push((format!("pool-16-repeat-{}", r), in_pool(16, || work(seed))));
         }
         if thorough && !large && idx % 4 == 0 {
             // oversubscribed pool while other threads keep the cores busy
@@ -150,7 +260,7 @@ fn case<S: Scheme>(ctx: &mut Ctx, idx: u64, rng: &mut ChaCha20Rng, large: bool) 
                     })
                 })
                 .collect();
-            runs.push(("pool-64-oversubscribed".into(), in_pool(64, || workload::<S>(seed, thorough, large))));
+            runs.push(("pool-64-oversubscribed".into(), in_pool(64, || work(seed))));
             stop.store(true, std::sync::atomic::Ordering::Relaxed);
             for h in hogs {
                 let _ = h.join();
@@ -159,8 +269,8 @@ fn case<S: Scheme>(ctx: &mut Ctx, idx: u64, rng: &mut ChaCha20Rng, large: bool) 
     }
     #[cfg(not(feature = "par"))]
     {
-        runs.push(("no-parallel-feature".into(), workload::<S>(seed, thorough, large)));
-        runs.push(("no-parallel-feature-repeat".into(), workload::<S>(seed, thorough, large)));
+        runs.push(("no-parallel-feature".into(), work(seed)));
+        runs.push(("no-parallel-feature-repeat".into(), work(seed)));
     }
     ctx.count("executions", runs.len() as u64);
     let base = runs[0].1.clone();
@@ -168,7 +278,7 @@ fn case<S: Scheme>(ctx: &mut Ctx, idx: u64, rng: &mut ChaCha20Rng, large: bool) 
     // record reference digests for the cross-build comparison made by the driver
     let mut note = serde_json::Map::new();
     for (k, v) in &base {
-        note.insert(format!("{}{}|{}|{}", S::NAME, if large { "/large" } else { "" }, idx, k), json!(v));
+        note.insert(format!("{}{}|{}|{}", name, if huge() { "/huge" } else if large { "/large" } else { "" }, idx, k), json!(v));
     }
     ctx.merge_note_map("digests", note);
     let mut mismatches: Vec<serde_json::Value> = Vec::new();
@@ -183,7 +293,10 @@ fn case<S: Scheme>(ctx: &mut Ctx, idx: u64, rng: &mut ChaCha20Rng, large: bool) 
         }
     }
     let desc = json!({"executions": runs.iter().map(|(n, _)| n.clone()).collect::<Vec<_>>(), "outputs": base.keys().collect::<Vec<_>>(), "digests": base});
-    if mismatches.is_empty() {
+    if mismatches.is_empty() && base.contains_key("pipeline") {
+        // nothing but the refusal was compared
+        ctx.skipped("same-digests-across-thread-counts", "pipeline refused under every pool size");
+    } else if mismatches.is_empty() {
         ctx.held("same-digests-across-thread-counts", desc);
     } else {
         let what = mismatches[0]["output"].as_str().unwrap_or("?").split('[').next().unwrap_or("?").to_string();
@@ -244,6 +357,9 @@ pub fn run(ctx: &mut Ctx) {
         let n = ctx.n(24, 300) / <S as Scheme>::WEIGHT.max(1);
         ctx.run_cases(<S as Scheme>::NAME, n.max(3), |ctx, i, rng| case::<S>(ctx, i, rng, false));
     });
+    let nd = ctx.n(24, 300);
+    ctx.run_cases("mlpst", nd, |ctx, i, rng| case_with(ctx, i, rng, "mlpst", false, |seed| mlpst_workload(seed, false)));
+    ctx.run_cases("streaming", nd, |ctx, i, rng| case_with(ctx, i, rng, "streaming", false, |seed| streaming_workload(seed, false)));
     ctx.run_cases("sonic/huge-setup", 1, |ctx, _i, rng| huge_setup(ctx, rng));
     // polynomials with more than a thousand coefficients (one curve per scheme is enough here)
     let nl = if ctx.is_thorough() { 12 } else { 4 };
@@ -252,7 +368,31 @@ pub fn run(ctx: &mut Ctx) {
     ctx.run_cases("ipa/large", nl, |ctx, i, rng| case::<crate::schemes::IpaS>(ctx, i, rng, true));
     ctx.run_cases("pst13/large", nl / 2, |ctx, i, rng| case::<crate::schemes::Pst13S<crate::schemes::E381>>(ctx, i, rng, true));
     ctx.run_cases("hyrax/large", nl, |ctx, i, rng| case::<crate::schemes::HyraxS>(ctx, i, rng, true));
+    ctx.run_cases("mlpst/large", nl, |ctx, i, rng| case_with(ctx, i, rng, "mlpst", true, |seed| mlpst_workload(seed, true)));
+    ctx.run_cases("streaming/large", nl, |ctx, i, rng| case_with(ctx, i, rng, "streaming", true, |seed| streaming_workload(seed, true)));
     ctx.run_cases("ligero-uni/large", nl, |ctx, i, rng| case::<crate::schemes::UniLigeroS>(ctx, i, rng, true));
     ctx.run_cases("ligero-ml/large", nl, |ctx, i, rng| case::<crate::schemes::MlLigeroS>(ctx, i, rng, true));
     ctx.run_cases("brakedown/large", nl, |ctx, i, rng| case::<crate::schemes::BrakedownS>(ctx, i, rng, true));
+    // 2^13..2^14 coefficients / 14 variables / PST13 tables of several hundred powers: one or two cases per scheme,
+    // pools of 1, 3, 16 and one more drawn size
+    HUGE.store(true, std::sync::atomic::Ordering::Relaxed);
+    let nh = if ctx.is_thorough() { 4 } else { 1 };
+    ctx.shard_offset = 1;
+    ctx.run_cases("marlin/huge", nh, |ctx, i, rng| case::<crate::schemes::MarlinS<crate::schemes::E381>>(ctx, i, rng, true));
+    ctx.shard_offset = 3;
+    ctx.run_cases("sonic/huge", nh, |ctx, i, rng| case::<crate::schemes::SonicS<crate::schemes::E381>>(ctx, i, rng, true));
+    ctx.shard_offset = 5;
+    ctx.run_cases("ipa/huge", nh + 1, |ctx, i, rng| case::<crate::schemes::IpaS>(ctx, i, rng, true));
+    ctx.shard_offset = 8;
+    ctx.run_cases("pst13/huge", 2 * nh + 2, |ctx, i, rng| case::<crate::schemes::Pst13S<crate::schemes::E381>>(ctx, i, rng, true));
+    ctx.shard_offset = 12;
+    ctx.run_cases("hyrax/huge", nh, |ctx, i, rng| case::<crate::schemes::HyraxS>(ctx, i, rng, true));
+    ctx.shard_offset = 13;
+    ctx.run_cases("ligero-uni/huge", nh, |ctx, i, rng| case::<crate::schemes::UniLigeroS>(ctx, i, rng, true));
+    ctx.shard_offset = 14;
+    ctx.run_cases("ligero-ml/huge", nh, |ctx, i, rng| case::<crate::schemes::MlLigeroS>(ctx, i, rng, true));
+    ctx.shard_offset = 15;
+    ctx.run_cases("brakedown/huge", nh, |ctx, i, rng| case::<crate::schemes::BrakedownS>(ctx, i, rng, true));
+    ctx.shard_offset = 0;
+    HUGE.store(false, std::sync::atomic::Ordering::Relaxed);
 }
